@@ -3,8 +3,9 @@
    Ports/PathModel.v, Ports/NameModel.v, proofs in Ports/PathProofs.v. *)
 From Coq Require Import List ZArith.
 From Coq Require Import Permutation Sorting.Sorted.
-From RtoscV Require Import Osc.OscModel Osc.OscReadProofs Ports.MetaModel Ports.NameModel Ports.PathModel
-                           Ports.PathProofs Ports.SearchProofs Ports.PathRegress Ports.WalkModel Ports.WalkProofs Ports.LookupProofs.
+From RtoscV Require Import Match.PatSpec Match.MatchModel Osc.OscModel Osc.OscReadProofs Ports.MetaModel Ports.NameModel Ports.PathModel
+                           Ports.PathProofs Ports.SearchProofs Ports.PathRegress Ports.WalkModel Ports.WalkProofs Ports.LookupProofs
+                           Ports.EnumProofs Ports.DispatchWalk Ports.LookupGen.
 Import ListNotations.
 Local Open Scope Z_scope.
 
@@ -142,3 +143,27 @@ Theorem C18_lookup_digit_alias_refuted :
          ([0%nat], [47;97;51;98]); ([1%nat], [47;97;48;49;98])] [47] /\
   apropos alias_tree [47;97;48;49;98] = AFound [0%nat].
 Proof. exact lookup_digit_alias. Qed.
+
+(* ---- lookup, in general -----------------------------------------------------------
+   Every (port, address) the walk reports is found by apropos - any depth, '#N'
+   at any level, leaf names with several '#'.  Side conditions: names of the
+   documented shape ([lok]: sub-tree ports one component "text/" / "text#N/",
+   7-bit literal text without : { * #, no two '#N' adjacent, a leaf name starts
+   with a literal character other than '/' and does not end in '/'), and
+   [lookup_disjoint]: no path is answered by two ports of one table, where a
+   port answers a path if its name matches it as a pattern or the path is a
+   prefix of the raw name (the two tests apropos makes).  This is the
+   semantic form of "no sibling's name is a prefix of another's"; deriving it
+   from prefix-freeness of the concrete names (for digit-free literal text) is
+   not done - C18_lookup_digit_alias_refuted shows why digits must be
+   excluded there. *)
+Theorem C18_lookup_partial : forall root id a ty,
+  Forall sport_wf root -> Forall lok root -> lookup_disjoint root ->
+  forall out b, walk None (map render_port root) [] = WOk out b ->
+  In (id, a) out -> leaf_admits root id ty ->
+  apropos (map render_port root) a = AFound id.
+Proof. exact walk_lookup. Qed.
+
+Theorem C18_lookup_nonvacuous : Forall lok ex_d /\ lookup_disjoint ex_d /\
+  apropos (map render_port ex_d) [47; 97; 49; 49; 47; 99; 49; 47; 120] = AFound [0%nat; 0%nat].
+Proof. exact ex_d_lok. Qed.
